@@ -6,6 +6,7 @@ import NxsModel.Driver.Frame
 import NxsModel.Driver.Codec
 import NxsModel.Driver.Stream
 import NxsModel.Driver.Reasm
+import NxsModel.Driver.Config
 open Nxs Nxs.Driver
 
 def dispatch (toks : List String) : String :=
@@ -18,6 +19,7 @@ def dispatch (toks : List String) : String :=
   | "rec" :: rest => (recOp rest).getD "bad-op"
   | "stream" :: rest => (streamOp rest).getD "bad-op"
   | "reasm" :: rest => (reasmOp rest).getD "bad-op"
+  | "cfg" :: rest => (cfgOp rest).getD "bad-op"
   | _ => "bad-op"
 
 partial def loop (h : IO.FS.Stream) (out : IO.FS.Stream) : IO Unit := do
